@@ -1072,7 +1072,9 @@ func (agg *aggregate) Process(ctx context.Context, man gdbi.Manager, in gdbi.InP
 					if val != nil {
 						fval, err := cast.ToFloat64E(val)
 						if err != nil {
+							// not a number: report it, but do not count it as 0
 							outErr = fmt.Errorf("histogram aggregation: can't convert %v to float64", val)
+							continue
 						}
 						fieldValues = append(fieldValues, fval)
 						if c > maxValues {
@@ -1112,9 +1114,15 @@ func (agg *aggregate) Process(ctx context.Context, man gdbi.Manager, in gdbi.InP
 				td := tdigest.New()
 				for t := range aChans[a.Name] {
 					val := jsonpath.TravelerPathLookup(t, pagg.Field)
+					if val == nil {
+						// rows without the field do not take part
+						continue
+					}
 					fval, err := cast.ToFloat64E(val)
 					if err != nil {
+						// not a number: report it, but do not count it as 0
 						outErr = fmt.Errorf("percentile aggregation: can't convert %v to float64", val)
+						continue
 					}
 					td.Add(fval, 1)
 				}
